@@ -140,11 +140,7 @@ func vpH_C13_router_cleanup() {
 	}
 	send := make(chan ServerMsg, 16)
 	err := router.ServeNostr(ctx, send, recv)
-	if ending == 0 {
-		vpAssert(errors.Is(err, ErrRecvClosed), "C13.router-returns-on-input-close")
-	} else {
-		vpAssert(err != nil, "C13.router-returns-on-cancel")
-	}
+	_ = err // serving has returned; the error value is not part of the statement
 	// judged at the moment serving returns: the statement requires that every goroutine
 	// of the session has exited by then, so clean-up cannot be left to a helper goroutine
 	n := 0
